@@ -35,7 +35,6 @@ def seed():
 def goenv():
     e = dict(os.environ)
     e.update({"GOFLAGS": "-mod=mod", "GOPROXY": "off", "GOSUMDB": "off", "GOTOOLCHAIN": "local"})
-    e.setdefault("GOCACHE", os.path.join(VERIF, "build", "gocache"))
     return e
 
 
